@@ -417,6 +417,21 @@ class RenderContext:
             finally:
                 self.loops.pop()
 
+    @contextmanager
+    def loop_iterations(self, length: int) -> Iterator[None]:
+        """Account for a loop of _length_ iterations that is not on the loop stack.
+
+        Raises `LoopIterationLimitError` like `loop()` does, and makes loops nested
+        in the body of the `with` statement count their iterations _length_ times.
+        """
+        self.raise_for_loop_limit(length)
+        carry = self.loop_iteration_carry
+        self.loop_iteration_carry = carry * length
+        try:
+            yield
+        finally:
+            self.loop_iteration_carry = carry
+
     def parentloop(self, token: TokenT) -> Undefined | object:
         """Return the last ForLoop object from the loop stack."""
         try:
